@@ -29,6 +29,31 @@ TOKENS = ["->", "<-", "->->", "==", "===", "=", "*", "+", "-", "~", "{", "}", "|
 # sources whose references carry arguments (tunnels, threads, functions with parameters, divert targets as values):
 # the mutations "rename" / "misname" turn them into references to names that exist nowhere
 EXTRA_POOL = [
+    # non-ASCII text inside expressions (string literals in front of further tokens), on several kinds of line
+    """VAR s = "a\u00f1"
+VAR t = "\u65e5\u672c"
+-> k
+== k ==
+{"\u65e5\u672c\u8a9e" + 1} {s == "\u00e9"} {"\u00fc" + s + "\U0001d11e" + 2}
+~ s = "\u00df" + s + t
+* {s != "\u00e9\u00e8"} [choose "\u00e9" {t + "\u00fc" + 1}]
+    ~ temp u = "\u00e5" + s + 3.5
+    {u} {t ? "\u672c"} {MAX(1, 2)} -> k2(s + "\u00e9", 2)
+- {s}
+-> END
+== k2(p, q) ==
+{p + "\u00e9" + q}
+-> END
+""",
+    # numeric literals at and beyond the limits
+    """VAR f = 3.5
+-> k
+== k ==
+{f + 340282350000000000000000000000000000000.0}
+{f * 99999999999999999999999999999999999999999999999.0}
+{2147483647 + 1} {1.0e5}
+-> END
+""",
     """VAR x = 2
 -> start
 == start ==
